@@ -9,12 +9,15 @@
   * `seek_lands`: for every channel count, every unit, every target inside the data it is block k / spb with k % spb frames consumed.
   * `read_within`, `read_across`: what the reads after it deliver — the rest of the target block, then the block behind it (the
     file position moved with the seek).
-  * `seek_then_read`: the three composed, for every history, target and channel count.
+  * `seek_then_read`: the three composed, for every history, target and channel count;
+    `read_slice` / `read_partition` / `seek_then_read_stream` (helpers lean/SfProofs/ImaSeek.lean): the same for reads of ANY length — the items
+    delivered are the slice of the decoded stream at the position, two calls deliver what one call delivers.
   * `fast_path_unit_one`: the fast path "target block = blockcount − 1" is sound where the counter counts blocks (`unit = 1`);
     `fast_path_aiff_stereo_wrong`: in the AIFF unit it hands out block c for a seek into block 2c + 1 (concrete 2-channel witness) —
     the regression of seeded/C20-aiff-ima-seek-fastpath-stereo is outside what these theorems allow.
 -/
 import SfModel.ImaSeek
+import SfProofs.ImaSeek
 namespace Sf.ImaSeek
 
 theorem seek_forgets (c : Cfg) (s s' : St) (k : Nat) : seek c s k = seek c s' k := by
@@ -151,5 +154,45 @@ example : seek aiffStereo (run aiffStereo (init aiffStereo) [.read 3]) 2 = seek 
 example : (read aiffStereo (atBlock aiffStereo 1 0) 3).2 = ([2, 2, 2], 3) := by
   have := read_within aiffStereo 1 0 3 (by decide) (by decide) (by decide)
   simpa [aiffStereo] using this
+
+/-- `sf_read_*` for `f` frames at position `p = b·spb + cnt`: the items [p·ch, (p + f)·ch) of the stream -/
+theorem read_slice (c : Cfg) (nb : Nat) (h : c.Wf nb) (b cnt f : Nat) (hc : cnt ≤ c.spb) (hb : b < nb) (hle : b * c.spb + cnt + f ≤ nb * c.spb) :
+    ∃ b2 cnt2, cnt2 ≤ c.spb ∧ b2 < nb ∧ b2 * c.spb + cnt2 = b * c.spb + cnt + f ∧
+      read c (atBlock c b cnt) (f * c.ch) = (atBlock c b2 cnt2, slice c ((b * c.spb + cnt) * c.ch) (f * c.ch), f * c.ch) := by
+  have : f < f * c.ch + 1 := by
+    have := Nat.le_mul_of_pos_right f h.ch_pos
+    omega
+  exact readLoop_slice c nb h _ b cnt f hc hb hle this
+
+/-- C06, partition: two calls of `f1` and `f2` frames deliver what one call of `f1 + f2` frames delivers (and, by `read_slice`, whatever
+    follows depends on the position reached only) -/
+theorem read_partition (c : Cfg) (nb : Nat) (h : c.Wf nb) (b cnt f1 f2 : Nat) (hc : cnt ≤ c.spb) (hb : b < nb)
+    (hle : b * c.spb + cnt + (f1 + f2) ≤ nb * c.spb) :
+    (read c (atBlock c b cnt) (f1 * c.ch)).2.1 ++ (read c (read c (atBlock c b cnt) (f1 * c.ch)).1 (f2 * c.ch)).2.1 =
+      (read c (atBlock c b cnt) ((f1 + f2) * c.ch)).2.1 := by
+  obtain ⟨b1, c1, h1, h2, h3, hr1⟩ := read_slice c nb h b cnt f1 hc hb (by omega)
+  obtain ⟨b2, c2, _, _, _, hr2⟩ := read_slice c nb h b1 c1 f2 h1 h2 (by omega)
+  obtain ⟨b3, c3, _, _, _, hr3⟩ := read_slice c nb h b cnt (f1 + f2) hc hb hle
+  simp only [hr1, hr2, hr3]
+  have e : (b1 * c.spb + c1) * c.ch = (b * c.spb + cnt) * c.ch + f1 * c.ch := by rw [h3, Nat.add_mul]
+  rw [e, ← slice_append, ← Nat.add_mul]
+
+/-- C06 for the IMA readers as written, any length: after ANY history of reads and seeks on the handle, a seek to frame `k` followed by a read of
+    `f` frames delivers exactly the frames k, k+1, …, k+f−1 of the stream — for every channel count, either block-counter unit, every target -/
+theorem seek_then_read_stream (c : Cfg) (nb : Nat) (h : c.Wf nb) (s : St) (ops : List Op) (k f : Nat)
+    (hk : k / c.spb < nb) (hle : k + f ≤ nb * c.spb) :
+    ∃ s', seek c (run c s ops) k = some s' ∧ pos c s' = k ∧ (read c s' (f * c.ch)).2 = (slice c (k * c.ch) (f * c.ch), f * c.ch) := by
+  have hkm : k / c.spb * c.spb + k % c.spb = k := by rw [Nat.mul_comm]; exact Nat.div_add_mod k c.spb
+  refine ⟨atBlock c (k / c.spb) (k % c.spb), seek_lands c nb h _ k hk, ?_, ?_⟩
+  · rw [pos_atBlock c h.unit_pos]; exact hkm
+  · obtain ⟨b2, c2, _, _, _, hr⟩ := read_slice c nb h (k / c.spb) (k % c.spb) f (Nat.le_of_lt (Nat.mod_lt _ h.spb_pos)) hk (by omega)
+    rw [hr, hkm]
+
+
+/-- non-vacuity of `seek_then_read_stream` / `read_partition`: the stereo AIFF-layout configuration, a read of 5 frames across two block ends -/
+example : ∃ s', seek aiffStereo (run aiffStereo (init aiffStereo) [.read 3, .seek 5]) 1 = some s' ∧ pos aiffStereo s' = 1 ∧
+    (read aiffStereo s' (5 * 2)).2 = ([0, 0, 2, 2, 2, 2, 4, 4, 4, 4], 10) := by
+  obtain ⟨s', h1, h2, h3⟩ := seek_then_read_stream aiffStereo 4 aiffStereo_wf (init aiffStereo) [.read 3, .seek 5] 1 5 (by decide) (by decide)
+  exact ⟨s', h1, h2, by rw [show aiffStereo.ch = 2 from rfl] at h3; rw [h3]; decide⟩
 
 end Sf.ImaSeek
